@@ -17,7 +17,7 @@ PID = 'C08'
 LEVEL = 'exploration'
 RULE = ('full product mesh size n1d x box L x k-edge family {linear n1d bins, one bin, integer multiples of the fundamental '
         '(every shell on an edge), half-integer multiples (no shell on an edge), logarithmic} x first edge {0, 1.3 fundamental} x '
-        'last edge {0.5, 1, sqrt2, sqrt3(+1 fundamental)} k_Ny (duplicate edge arrays dropped) x {mu bins | Npi x pimax}; every case is '
+        'last edge {0.5, 1, sqrt2, sqrt3(+1 fundamental)} k_Ny (duplicate edge arrays dropped) x {mu bins | Npi x pimax} (quick: bin_kppi with L=1000 only for Npi=3); every case is '
         'run compiled for every multipole set x thread count, through calc_pk_from_deltak, and interpreted (py_func) under 4 virtual '
         'thread schedules; every run is compared with the full-mesh reference (exact integer counts up to near-edge feasibility, '
         'N*power, N*k_avg, (2l+1)-Legendre sums); non-trivial = distinct (function, n1d, L, edges, mu/pi binning) whose reference has '
@@ -127,6 +127,8 @@ def cases(tier, seed):
                     if var['dt'] == 'f8':
                         continue
                     for npi in npis:
+                        if q and Lc == 1000 and npi == 1:
+                            continue      # quick: the second box size only rescales the edges; keep it for Npi = 3
                         for pimax in (0.5, 1, 2):
                             yield dict(fn='kppi', npi=npi, pimax=pimax, **base)
 
